@@ -262,6 +262,7 @@ def check_trims(ctx):
         a4 = BSpline.Curve(); a4.degree = 1; a4.ctrlpts = [[0.1, 0.8], [0.3, 0.8]]; a4.knotvector = [0, 0, 1, 1]
         b4 = BSpline.Curve(); b4.degree = 1; b4.ctrlpts = [[0.3, 0.8], [0.1, 0.8]]; b4.knotvector = [0, 0, 1, 1]
         t4.add([a4, b4])
+        a4.sample_size, b4.sample_size = 7, 9          # (sampling of the members of a container trim travels with the file)
         s.trims = [t1, t2, t3, t4]
         fn = os.path.join(d, "t.json")
         exchange.export_json(s, fn)
@@ -274,6 +275,20 @@ def check_trims(ctx):
               and len(tr[2]) == 2 and close_seq([list(p) for p in tr[2][1].ctrlpts], b.ctrlpts, 1e-12))
         if not ok:
             ctx.violate("exchange.import_json", tg, small, {"n_trims": len(tr)})
+        elif (a4.sample_size, b4.sample_size) != (7, 9) or (tr[3][0].sample_size, tr[3][1].sample_size) != (7, 9):
+            ctx.violate("exchange.export_json", tg + ["member_sampling"], small, {"original_after_export": [a4.sample_size, b4.sample_size], "imported": [tr[3][0].sample_size, tr[3][1].sample_size]})
+        # a container that holds the same patch twice (a shape and its deep copy): both are written and read back
+        import copy as _copy
+        for fmt, exp_fn, imp_fn in (("json", exchange.export_json, exchange.import_json),):
+            c2 = multi.SurfaceContainer()
+            s1 = build(SURFS[1])
+            c2.add(s1)
+            c2.add(_copy.deepcopy(s1))
+            fn2 = os.path.join(d, "twice." + fmt)
+            exp_fn(c2, fn2)
+            got2 = imp_fn(fn2)
+            if len(c2) != 2 or len(got2) != 2:
+                ctx.violate("multi.SurfaceContainer.add", tg + ["equal_shapes"], small, {"in_container": len(c2), "imported": len(got2)})
     except Exception as e:
         ctx.violate("exchange.export_json", tg + ["raises"], small, {"exception": repr(e)[:300]})
     finally:
